@@ -37,6 +37,11 @@ def fault_scenarios(tier):
                         # invoked and the outcome carries no class; 1: no retry is ever granted)
                         for ma in (0, 1, 2):
                             out.append({"async": a, "mode": mode, "retry": retry, "max_attempts": ma, "ops": ops, "pre": pre, "fault": None})
+                    # exceptions whose status / code attributes have unusual types (the no-retry paths hand them to default_classifier
+                    # inside an exception handler, before anything is recorded)
+                    for shape in range(11):
+                        out.append({"async": a, "mode": mode, "retry": retry, "max_attempts": 2, "ops": [["X", shape], ["V"]], "pre": pre,
+                                    "fault": None})
     return out
 
 
